@@ -373,7 +373,7 @@ func parseSpecFile(path string, ps *PkgSpec, trustedFile bool) error {
 			case "reveal":
 				cur.Reveal = append(cur.Reveal, strings.Fields(rest)...)
 			case "handler":
-				cur.Handler = rest
+				cur.Handler = "route " + rest
 			case "unroll":
 				f := strings.Fields(rest) // unroll <loop> <n>
 				if len(f) != 2 {
